@@ -1,50 +1,85 @@
 /-
-  A tiny language for the thread guard at the top of `TrajectoryStore.__init__`, its compilation to a flat
-  instruction list, a two-thread small-step semantics, and an executable reachability computation.
+  A small imperative language for the thread-ownership code of `TrajectoryStore.__init__` (and the helpers it calls), its
+  compilation to a flat instruction list, a two-thread small-step semantics, and executable invariant-set checks.
 
-  The *program* (`Aeic.Gen.guardProgram`) is regenerated from the Python source by the translator on every check run
-  (`AeicModel/Generated/Guard.lean`); the mutual-exclusion theorem for it is re-proved by the kernel on every build
-  (`AeicProofs/Properties/C20.lean`, `generated_guard_mutual_exclusion`).
+  The *program* (`Aeic.Gen.guardProgram`, `AeicModel/Generated/Guard.lean`) is regenerated from the Python source by the
+  translator on every check run; a candidate invariant set for it (`Aeic.Gen.guardReach`,
+  `AeicModel/Generated/GuardReach.lean`) is computed by `Scripts/GuardReachGen.lean` (untrusted: a search), and the
+  kernel then *checks* that the set contains the initial state, is closed under every step of either thread and contains
+  no state in which both threads own a store (`AeicProofs/Properties/C20.lean`, `generated_guard_mutual_exclusion`).
+
+  Semantics. Values are `None` or the identifier of one of the two threads. Every access to shared state (reading or
+  writing the class attribute, acquiring or releasing the lock) is one atomic instruction, and so is every thread-local
+  instruction, so the interleavings of this model are finer than source lines. A thread whose constructor call returned
+  (normally or by raising) may call the constructor again, any number of times; `has0`/`has1` record that a call of the
+  thread has succeeded, i.e. that the thread has constructed a store. `choice` is a branch the model does not decide
+  (a condition on constructor arguments; code that may or may not raise): the schedule carries the choice bit.
 -/
 namespace Aeic.GuardLang
 
-/-- statement forms the translator recognises in the guard region -/
+/-- a value of the class attribute or of a local: `None` or the identifier of one of the two racing threads -/
+inductive Val | none | tid (t : Bool)
+deriving DecidableEq, Repr, Inhabited
+
+/-- thread-local (pure) expressions -/
+inductive PExpr | none | me | loc (i : Nat)
+deriving DecidableEq, Repr, Inhabited
+
+inductive Cond
+  | tt
+  | isNone (e : PExpr)
+  | truthy (e : PExpr)
+  | eq (a b : PExpr)
+  | not (c : Cond)
+  | and (a b : Cond)
+  | or (a b : Cond)
+deriving DecidableEq, Repr, Inhabited
+
 inductive GStmt
-  | withLock (body : List GStmt)          -- `with <class-level lock>:`
-  | ifOwnerSet (t e : List GStmt)         -- `if TrajectoryStore.active_in_thread is not None:`
-  | ifOwnerNotMe (t e : List GStmt)       -- `if TrajectoryStore.active_in_thread != threading.get_ident():`
-  | raise                                 -- `raise RuntimeError(...)`
-  | setOwnerMe                            -- `TrajectoryStore.active_in_thread = threading.get_ident()`
+  | withLock (body : List GStmt)
+  | ite (c : Cond) (t e : List GStmt)
+  | raise
+  | readOwner (i : Nat)
+  | setOwner (e : PExpr)
+  | setLoc (i : Nat) (e : PExpr)
+  | acquire
+  | release
+  | choice (a b : List GStmt)     -- nondeterministic: e.g. `try: <unrelated code that may raise> except: <handler>`
 deriving Repr
 
 inductive Instr
   | acquire
   | release
-  | brOwnerSet (elseTarget : Nat)         -- fall through if owner is set, else jump
-  | brOwnerNotMe (elseTarget : Nat)       -- fall through if owner ≠ me, else jump
-  | setOwner
+  | br (c : Cond) (elseTarget : Nat)
+  | brAny (elseTarget : Nat)      -- the scheduler's choice bit decides
+  | readOwner (i : Nat)
+  | setOwner (e : PExpr)
+  | setLoc (i : Nat) (e : PExpr)
   | jump (target : Nat)
   | halt (ok : Bool)
 deriving Repr, DecidableEq, Inhabited
 
 mutual
-/-- compile a statement placed at address `at_`, inside `depth` enclosing `with` blocks -/
 def compileStmt (at_ depth : Nat) : GStmt → List Instr
   | .withLock body =>
     let b := compileBlock (at_ + 1) (depth + 1) body
     [.acquire] ++ b ++ [.release]
-  | .ifOwnerSet t e =>
+  | .ite c t e =>
     let tb := compileBlock (at_ + 1) depth t
     let eAt := at_ + 1 + tb.length + 1
     let eb := compileBlock eAt depth e
-    [.brOwnerSet eAt] ++ tb ++ [.jump (eAt + eb.length)] ++ eb
-  | .ifOwnerNotMe t e =>
-    let tb := compileBlock (at_ + 1) depth t
+    [.br c eAt] ++ tb ++ [.jump (eAt + eb.length)] ++ eb
+  | .raise => List.replicate depth .release ++ [.halt false]
+  | .readOwner i => [.readOwner i]
+  | .setOwner e => [.setOwner e]
+  | .setLoc i e => [.setLoc i e]
+  | .acquire => [.acquire]
+  | .release => [.release]
+  | .choice a b =>
+    let tb := compileBlock (at_ + 1) depth a
     let eAt := at_ + 1 + tb.length + 1
-    let eb := compileBlock eAt depth e
-    [.brOwnerNotMe eAt] ++ tb ++ [.jump (eAt + eb.length)] ++ eb
-  | .raise => List.replicate depth .release ++ [.halt false]   -- leaving the `with` blocks releases the lock
-  | .setOwnerMe => [.setOwner]
+    let eb := compileBlock eAt depth b
+    [.brAny eAt] ++ tb ++ [.jump (eAt + eb.length)] ++ eb
 
 def compileBlock (at_ depth : Nat) : List GStmt → List Instr
   | [] => []
@@ -55,21 +90,52 @@ end
 
 def compile (p : List GStmt) : List Instr := compileBlock 0 0 p ++ [.halt true]
 
-/-- two racing threads -/
 structure S where
   pc0 : Nat
   pc1 : Nat
-  owner : Option Bool      -- which thread (false = thread 0, true = thread 1) is recorded
+  owner : Val
   lock : Option Bool
+  loc0 : List Val
+  loc1 : List Val
+  has0 : Bool           -- thread 0 has had a constructor call succeed
+  has1 : Bool
 deriving DecidableEq, Repr
 
-def S.init : S := ⟨0, 0, none, none⟩
+def S.init : S := ⟨0, 0, .none, none, [], [], false, false⟩
 
 def pcOf (s : S) (t : Bool) : Nat := if t then s.pc1 else s.pc0
 def setPc (s : S) (t : Bool) (n : Nat) : S := if t then { s with pc1 := n } else { s with pc0 := n }
+def locOf (s : S) (t : Bool) : List Val := if t then s.loc1 else s.loc0
 
-/-- thread `t` executes one instruction (a blocked acquire and a halted thread do nothing) -/
-def step (prog : List Instr) (s : S) (t : Bool) : S :=
+/-- write local `i` (the list grows with `none` as needed; trailing structure is canonical because it only grows) -/
+def setAt : List Val → Nat → Val → List Val
+  | [], 0, v => [v]
+  | [], i + 1, v => .none :: setAt [] i v
+  | _ :: r, 0, v => v :: r
+  | x :: r, i + 1, v => x :: setAt r i v
+
+def setLocal (s : S) (t : Bool) (i : Nat) (v : Val) : S :=
+  if t then { s with loc1 := setAt s.loc1 i v } else { s with loc0 := setAt s.loc0 i v }
+
+def evalP (s : S) (t : Bool) : PExpr → Val
+  | .none => .none
+  | .me => .tid t
+  | .loc i => (locOf s t).getD i .none
+
+def evalC (s : S) (t : Bool) : Cond → Bool
+  | .tt => true
+  | .isNone e => evalP s t e == .none
+  | .truthy e => evalP s t e != .none
+  | .eq a b => evalP s t a == evalP s t b
+  | .not c => !evalC s t c
+  | .and a b => evalC s t a && evalC s t b
+  | .or a b => evalC s t a || evalC s t b
+
+/-- a constructor call of thread `t` returned (`ok` = without raising): remember a success, and be ready to call again -/
+def finish (s : S) (t : Bool) (ok : Bool) : S :=
+  if t then { s with pc1 := 0, loc1 := [], has1 := s.has1 || ok } else { s with pc0 := 0, loc0 := [], has0 := s.has0 || ok }
+
+def step (prog : List Instr) (s : S) (t : Bool) (alt : Bool := false) : S :=
   let pc := pcOf s t
   match prog[pc]? with
   | none => s
@@ -77,31 +143,31 @@ def step (prog : List Instr) (s : S) (t : Bool) : S :=
     match i with
     | .acquire => if s.lock = none then setPc { s with lock := some t } t (pc + 1) else s
     | .release => setPc { s with lock := if s.lock = some t then none else s.lock } t (pc + 1)
-    | .brOwnerSet e => setPc s t (if s.owner.isSome then pc + 1 else e)
-    | .brOwnerNotMe e => setPc s t (if s.owner ≠ some t then pc + 1 else e)
-    | .setOwner => setPc { s with owner := some t } t (pc + 1)
+    | .br c e => setPc s t (if evalC s t c then pc + 1 else e)
+    | .brAny e => setPc s t (if alt then e else pc + 1)
+    | .readOwner i => setPc (setLocal s t i s.owner) t (pc + 1)
+    | .setOwner e => setPc { s with owner := evalP s t e } t (pc + 1)
+    | .setLoc i e => setPc (setLocal s t i (evalP s t e)) t (pc + 1)
     | .jump n => setPc s t n
-    | .halt _ => s
+    | .halt ok => finish s t ok
 
-def run (prog : List Instr) (s : S) : List Bool → S
+/-- a schedule entry: which thread moves, and the choice bit it uses at a nondeterministic branch -/
+abbrev Act := Bool × Bool
+
+def run (prog : List Instr) (s : S) : List Act → S
   | [] => s
-  | t :: ts => run prog (step prog s t) ts
+  | a :: as => run prog (step prog s a.1 a.2) as
 
-/-- has thread `t` finished successfully? -/
-def okAt (prog : List Instr) (s : S) (t : Bool) : Bool :=
-  match prog[pcOf s t]? with
-  | some (.halt true) => true
-  | _ => false
+/-- both threads have constructed a store -/
+def bothOk (s : S) : Bool := s.has0 && s.has1
 
-def bothOk (prog : List Instr) (s : S) : Bool := okAt prog s false && okAt prog s true
+def acts : List Act := [(false, false), (false, true), (true, false), (true, true)]
 
-/-- breadth-first closure of a state list under `step` (fuel-bounded; the closedness is *checked*, not assumed) -/
 def expand (prog : List Instr) (seen : List S) : List S :=
   seen.foldl (fun acc s =>
-    let a := step prog s false
-    let b := step prog s true
-    let acc := if acc.contains a then acc else acc ++ [a]
-    if acc.contains b then acc else acc ++ [b]) seen
+    acts.foldl (fun acc a =>
+      let n := step prog s a.1 a.2
+      if acc.contains n then acc else acc ++ [n]) acc) seen
 
 def reach (prog : List Instr) : Nat → List S → List S
   | 0, seen => seen
@@ -110,6 +176,38 @@ def reach (prog : List Instr) : Nat → List S → List S
     if nxt.length = seen.length then seen else reach prog n nxt
 
 def closed (prog : List Instr) (l : List S) : Bool :=
-  l.all (fun s => l.contains (step prog s false) && l.contains (step prog s true))
+  l.all (fun s => acts.all (fun a => l.contains (step prog s a.1 a.2)))
+
+
+/-! bucketed invariant sets: a cheap `Nat` key first, structural comparison only inside the bucket -/
+def valCode : Val → Nat | .none => 0 | .tid false => 1 | .tid true => 2
+def lockCode : Option Bool → Nat | none => 0 | some false => 1 | some true => 2
+def key (s : S) : Nat :=
+  ((((s.pc0 * 256 + s.pc1) * 4 + valCode s.owner) * 4 + lockCode s.lock) * 2 + s.has0.toNat) * 2 + s.has1.toNat
+
+inductive Tree
+  | leaf
+  | node (l : Tree) (k : Nat) (b : List S) (r : Tree)
+
+def Tree.mem : Tree → Nat → S → Bool
+  | .leaf, _, _ => false
+  | .node l k b r, key, s => if Nat.blt key k then l.mem key s else if Nat.blt k key then r.mem key s else b.contains s
+
+def Tree.all (p : S → Bool) : Tree → Bool
+  | .leaf => true
+  | .node l _ b r => l.all p && b.all p && r.all p
+
+def closedT (prog : List Instr) (t : Tree) : Bool :=
+  t.all (fun s => acts.all (fun a => t.mem (key (step prog s a.1 a.2)) (step prog s a.1 a.2)))
+
+def Tree.build : (fuel : Nat) → List (Nat × List S) → Tree
+  | 0, _ => .leaf
+  | _, [] => .leaf
+  | f + 1, l =>
+    let m := l.length / 2
+    match l.drop m with
+    | [] => .leaf
+    | (k, b) :: rest => .node (Tree.build f (l.take m)) k b (Tree.build f rest)
 
 end Aeic.GuardLang
+
